@@ -441,7 +441,10 @@ def cmdline_family(ctx, idx, n):
     F = [[], ["--diagnostic-format", "json"], ["--diagnostic-format", "JSON"], ["--diagnostic-format", ""], ["--diagnostic-format", "xml"],
          ["--disable-color"]]
     O = [[], ["-O", "out"], ["-O", "missing-dir"], ["-O", ""]]
-    R = [[], ["-R", "refdir"], ["-R", "refdir/r.slice"], ["-R", "missing"], ["-R", ""], ["-R", "ok.slice"]]
+    R = [[], ["-R", "refdir"], ["-R", "refdir/r.slice"], ["-R", "missing"], ["-R", ""], ["-R", "ok.slice"],
+         # files that hold no module, as references (they are compiled, and skipped when the request is built)
+         ["-R", "empty.slice"], ["-R", "comment.slice"], ["-R", "modonly.slice"], ["-R", "empty.slice", "-R", "refdir"],
+         ["-R", "refdir", "-R", "comment.slice"]]
     S = [[], ["ok.slice"], ["warn.slice"], ["bad.slice"], ["empty.slice"], ["comment.slice"], ["nomodule.slice"], ["modonly.slice"],
          ["ok.slice", "ok.slice"], ["missing.slice"], ["refdir"], [""], ["ok.slice", "empty.slice"]]
     rng = ctx.rng("cmd/%d" % idx)
@@ -452,6 +455,10 @@ def cmdline_family(ctx, idx, n):
         for di, dim in enumerate(dims):
             for v in dim:
                 combos.append(v + s)
+    # with a generator (the only way the request is built), every reference list with every source list
+    for r_ in R:
+        for s in S:
+            combos.append(["-G", gen] + r_ + s)
     for _ in range(600 if ctx.tier == "quick" else 6000):
         combos.append(sum((rng.choice(dim) for dim in dims), []) + rng.choice(S))
     for ci, argv in enumerate(combos):
